@@ -241,7 +241,105 @@ def h_sessions_exclusive(s1: int, s2: int, s3: int) -> bool:
     return lock_state(p) == (0, 0) and MON["bad"] == 0
 
 
-ENCODED = ["molli.storage.backends.CollectionBackendBase.reading", "molli.storage.backends.CollectionBackendBase.writing",
+# ---- lock identity: every spelling of one library path must map to one lock ---------------------------------------
+import molli._aux.lock as LK
+
+W = os.getcwd().rstrip("/")          # the model's working directory is the process's, so lexical os.path functions agree with it
+SAME = ["data/lib.ukv", W + "/data/lib.ukv", "link/lib.ukv", "data/../data/lib.ukv", "./data/lib.ukv", W + "/link/lib.ukv", "flink.ukv"]
+OTHER = ["data/other.ukv", "link/other.ukv", W + "/data/lib.ukv2"]
+LINKS = {W + "/link": W + "/data", W + "/flink.ukv": W + "/data/lib.ukv"}
+
+
+class SymPath:
+    """pathlib.Path model with a symlink table: resolve() = absolute, '.'/'..' processed, links followed (cwd = the process's)"""
+
+    def __init__(self, p):
+        self.p = p.p if isinstance(p, SymPath) else os.fspath(p)
+
+    def __fspath__(self):
+        return self.p
+
+    def resolve(self):
+        p = self.p if self.p.startswith("/") else W + "/" + self.p
+        out = ""
+        for part in p.split("/"):
+            if part in ("", "."):
+                continue
+            if part == "..":
+                out = out.rsplit("/", 1)[0]
+                continue
+            out = out + "/" + part
+            hops = 0
+            while out in LINKS and hops < 8:
+                out = LINKS[out]
+                hops += 1
+        return SymPath(out or "/")
+
+    def absolute(self):
+        return SymPath(self.p if self.p.startswith("/") else W + "/" + self.p)
+
+    def as_posix(self):
+        return self.p
+
+    def __str__(self):
+        return self.p
+
+    def __truediv__(self, o):
+        return SymPath(self.p.rstrip("/") + "/" + str(o))
+
+    def mkdir(self, **k):
+        pass
+
+    def __eq__(self, o):
+        return isinstance(o, SymPath) and o.p == self.p
+
+    def __hash__(self):
+        return hash(self.p)
+
+
+class _Cfg:
+    SHARED_DIR = SymPath("/shared")
+
+
+def _real_tree():
+    """the same layout on a real filesystem (for replay): returns the directory to chdir into"""
+    import tempfile
+    d = os.path.realpath(tempfile.mkdtemp(prefix="verif_lk_"))
+    os.makedirs(d + "/data")
+    for f in ("lib.ukv", "other.ukv", "lib.ukv2"):
+        open(d + "/data/" + f, "wb").close()
+    os.symlink(d + "/data", d + "/link")
+    os.symlink(d + "/data/lib.ukv", d + "/flink.ukv")
+    return d
+
+
+def h_lock_identity(s1: int, s2: int, o: int) -> bool:
+    """
+    rwlock(): two spellings of one library file (relative, absolute, via '..', via a symlinked directory or file) name the same
+    lock; a different file names a different lock.  Runs the real rwlock on a path model with a symlink table.
+    pre: 0 <= s1 < len(SAME) and 0 <= s2 < len(SAME) and 0 <= o < len(OTHER)
+    post: _
+    """
+    if REAL:
+        d = _real_tree()
+        cwd = os.getcwd()
+        os.chdir(d)
+        try:
+            fix = lambda x: x.replace(W + "/", d + "/")
+            a, b, c = LK.rwlock(fix(SAME[s1])), LK.rwlock(fix(SAME[s2])), LK.rwlock(fix(OTHER[o]))
+        finally:
+            os.chdir(cwd)
+        return str(a) == str(b) and str(a) != str(c)
+    saved = (LK.Path, LK.config)
+    LK.Path, LK.config = SymPath, _Cfg
+    try:
+        a, b, c = LK.rwlock(SAME[s1]), LK.rwlock(SAME[s2]), LK.rwlock(OTHER[o])
+    finally:
+        LK.Path, LK.config = saved
+    return str(a) == str(b) and str(a) != str(c)
+
+
+ENCODED = ["molli._aux.lock.rwlock", "molli.storage.backends.CollectionBackendBase.reading", "molli.storage.backends.CollectionBackendBase.writing",
            "molli.storage.backends.CollectionBackendBase.flush", "molli.storage.backends.CollectionBackendBase.put",
            "molli.storage.backends.UkvCollectionBackend.begin_read", "molli.storage.backends.UkvCollectionBackend.end_read",
            "molli.storage.backends.UkvCollectionBackend.begin_write", "molli.storage.backends.UkvCollectionBackend.end_write",
@@ -255,6 +353,7 @@ def run(rep, tier):
     rep.models_validated = E.validate_storage_models()
     rep.bounds = {"faults": "one fault per session; step symbolic over {body, value encoder, k-th stream write during flush (k in 1..7), stream close at session end, file open at session begin, duplicate key flushed at exit, update_keys}",
                   "sessions": "reading() and writing(), first use of the handle or reuse, immediate-flush and buffered", "handles": "2 (+1 fresh reader)",
+                  "lock identity": "rwlock() on 7 spellings of one file (relative, absolute, '..', symlinked directory, symlinked file) and 3 other files",
                   "schedules": "session granularity, 3 sessions over 2 handles incl. one session attempted while another is open"}
     rep.outside = ["real multi-process schedules with random delays (8..16 processes): not addressed by this technique",
                    "correctness of fasteners' fcntl reader/writer lock across processes (trusted; modelled as bookkeeping)",
@@ -262,7 +361,7 @@ def run(rep, tier):
     rep.assumptions = ["RWLock model = per-path reader/writer counters, acquire on a busy lock returns False (fasteners' timeout behaviour)",
                        "an injected I/O fault raises OSError from stream.write/close or Path.open"]
     specs = [{"fn": "h_fault_writing", "timeout": 300, "split": f} for f in range(len(FAULTS))]
-    specs += [{"fn": "h_fault_reading", "timeout": 300}]
+    specs += [{"fn": "h_fault_reading", "timeout": 300}, {"fn": "h_lock_identity", "timeout": 300}]
     specs += [{"fn": "h_sessions_exclusive", "timeout": 300, "split": s} for s in range(8)]
     xh.run_obligations(rep, "harness.C04", specs)
     xh.known_witness(rep, "harness.C04")
